@@ -251,7 +251,19 @@ theorem super_remains_fixed (v : Variant) (hv : v.fixUpdate = true) (ops : List 
     have h3 := ih _ h1.1 h2.1
     exact ⟨h3.1, fun x => h3.2 (h2.2 x)⟩
 
-/-- **Inv (counter) + super_remains, code as it is (partial)** — the same holds for the current
+/-- **Inv (counter) + super_remains for /repo as it stands** (`current`, after `fix:` 80a4538):
+    for every sequence of collection operations — role changes, rejected and aborted calls
+    included — the counter equals the number of listed super admins and a super admin remains. -/
+theorem super_remains (ops : List COp) (s : Cache) (h : AInv s.A) (hc : CInv s.A) :
+    CInv (crun current s ops).A ∧ (1 ≤ supers s.A → 1 ≤ supers (crun current s ops).A) :=
+  super_remains_fixed current rfl ops s h hc
+
+/-- every state reachable from the empty collections satisfies the whole administrator invariant -/
+theorem admin_inv_reachable_current (ops : List COp) :
+    AInv (crun current {} ops).A ∧ CInv (crun current {} ops).A :=
+  ⟨admin_inv_reachable current ops, (super_remains ops {} AInv.empty CInv.empty).1⟩
+
+/-- **Inv (counter) + super_remains, historic (partial)** — before `fix:` 80a4538, and for any variant: — the same holds for the current
     code over every history in which no `Update` changes an admin's role. -/
 theorem super_remains_partial (v : Variant) (ops : List COp) (s : Cache)
     (h : AInv s.A) (hc : CInv s.A) (hn : NoRoleChange v s ops) :
@@ -279,14 +291,14 @@ example : AInv base.A ∧ CInv base.A ∧ supers base.A = 2 :=
 example : NoRoleChange .coded base [.aUpdate (s "a0") true, .aRemove (s "a1"), .aRemove (s "a0")] := by
   simp only [NoRoleChange]; decide
 
-/-- **D2 (refutation)** — as coded, demoting one super admin and deleting the other leaves *no*
+/-- **D2 (historic refutation, tree before `fix:` 80a4538)** — as then coded, demoting one super admin and deleting the other leaves *no*
     super admin while the counter still says 1: both `CInv` and `super_remains` fail. -/
 theorem super_remains_refuted :
     let t := crun .coded base [.aUpdate (s "a0") false, .aRemove (s "a1")]
     AInv base.A ∧ CInv base.A ∧ supers base.A = 2 ∧ supers t.A = 0 ∧ t.A.superCount = 1 :=
   ⟨admin_inv_reachable _ _, by unfold CInv; decide, by decide, by decide, by decide⟩
 
-/-- **D3 (refutation)** — as coded, `Update` of an id that is not registered aborts (nil
+/-- **D3 (historic refutation, tree before `fix:` e3cc9eb)** — as then coded, `Update` of an id that is not registered aborts (nil
     dereference); the repaired code answers not-found. -/
 theorem update_unknown_crashes :
     (cstep .coded base (.aUpdate (s "zz") false)).2 = .crash ∧
@@ -319,6 +331,15 @@ theorem admin_no_crash_fixed (v : Variant) (hv : v.fixUpdate = true) (s : Cache)
         split at hr
         · cases hr
         cases hp : s.provName adm.provId <;> simp [hp] at hr
+
+/-- /repo as it stands: no administrator-collection call aborts on a consistent state -/
+theorem admin_no_crash (s : Cache) (op : COp) (h : AInv s.A) : (cstep current s op).2 ≠ .crash :=
+  admin_no_crash_fixed current rfl s op h
+
+/-- on the history that refuted the property before the fix, /repo as it stands refuses the deletion -/
+example : let t := crun current base [.aUpdate (s "a0") false, .aRemove (s "a1")]
+    supers t.A = 1 ∧ t.A.superCount = 1 ∧ (cstep current base (.aUpdate (s "zz") false)).2 = .aerr .notFound := by
+  decide
 
 /-! ## 3. paging through administrators -/
 
@@ -754,27 +775,27 @@ def booted (v : Variant) : Auth := (Auth.step v [] { db := db0 } .restart).1
 def renamed (v : Variant) : Auth := (Auth.step v [] (booted v) (.updateProv p0')).1
 end Witness
 
-example : IsImage (booted .coded) ∧ (booted .coded).cache.A.bySubProv.get (s "step", s "n0") ≠ none := by
+example : IsImage (booted .updateFixed) ∧ (booted .updateFixed).cache.A.bySubProv.get (s "step", s "n0") ≠ none := by
   unfold IsImage; decide
 
 /-- the hypothesis of `admin_write_failure_restores` is met: a failing first database call -/
-example : (Auth.step .coded [1] (booted .coded) (.updateAdmin (s "a0") true)).2 = .storeFailed ∧
-    (Auth.step .coded [1] (booted .coded) (.removeAdmin (s "a0"))).2 = .badRequest ∧
-    (Auth.step .coded [1, 2] (booted .coded) (.updateAdmin (s "a0") true)).2 = .reloadFailed := by decide
+example : (Auth.step .updateFixed [1] (booted .updateFixed) (.updateAdmin (s "a0") true)).2 = .storeFailed ∧
+    (Auth.step .updateFixed [1] (booted .updateFixed) (.removeAdmin (s "a0"))).2 = .badRequest ∧
+    (Auth.step .updateFixed [1, 2] (booted .updateFixed) (.updateAdmin (s "a0") true)).2 = .reloadFailed := by decide
 
-/-- **cache_eq_store / remove_provisioner_exact (refutation, code as it is)** — renaming a
+/-- **cache_eq_store / remove_provisioner_exact (refutation, /repo as it stands: D18)** — renaming a
     provisioner that has administrators is accepted and stored, but the administrator cache keeps
     the old name: the running CA no longer finds the admin under (subject, current name) although
     a restart would; `RemoveProvisioner` then succeeds without deleting that admin — the last
     super admin — from the database, and the next start fails. -/
 theorem rename_breaks_cache_eq_store :
-    (Auth.step .coded [] (booted .coded) (.updateProv p0')).2 = .ok ∧
-    (renamed .coded).cache.A.bySubProv.get (s "step", s "n2") = none ∧
-    ((buildCache (renamed .coded).db.provs (renamed .coded).db.adms).bind
+    (Auth.step .updateFixed [] (booted .updateFixed) (.updateProv p0')).2 = .ok ∧
+    (renamed .updateFixed).cache.A.bySubProv.get (s "step", s "n2") = none ∧
+    ((buildCache (renamed .updateFixed).db.provs (renamed .updateFixed).db.adms).bind
         (fun c => c.A.bySubProv.get (s "step", s "n2"))).isSome = true ∧
-    (let r := Auth.step .coded [] (renamed .coded) (.removeProv (s "p0"))
+    (let r := Auth.step .updateFixed [] (renamed .updateFixed) (.removeProv (s "p0"))
      r.2 = .ok ∧ r.1.db.provs = [] ∧ r.1.db.adms = db0.adms ∧
-     (Auth.step .coded [] r.1 .restart).2 = .reloadFailed) := by decide
+     (Auth.step .updateFixed [] r.1 .restart).2 = .reloadFailed) := by decide
 
 /-- the repaired code on the same history: the cache is the image of the database after the
     rename, and the provisioner holding the last super admin cannot be removed -/
